@@ -49,3 +49,14 @@ claim("C10",
       "not proved; RTF reader semantics (cp1252 under \\ansi, \\uc skipping) are my formalisation of RTF 1.9.",
       "Rocq proof (induction over strings, lia; finite reflection over 65536 units) + byte-level differential check + exhaustive code-point sweep",
       "DESIGN.md section 6 C10")
+claim("C11",
+      "Theorems (Coq): on the regenerated 682-entry table and RTF_CHAR_MAPPING — every command alone reads back as its "
+      "mapped character; the two-pass model equals the independent single-pass reference tokenizer on every command in 16 "
+      "context templates and on the special sequences; pass-1 control words are not captured by pass 2 (finite, by "
+      "computation, re-checked whenever the code's tables change); text without trigger characters is only escaped "
+      "(unbounded, induction); conversion off = escaping only. Against the implementation: reader-level events of every "
+      "rendered probe run vs the reference converter, for all 682 commands in every component kind and per-cell flags.",
+      "Model = reference for all texts is not proved (C11_partial). Known findings C11-sign-space and C11-pagefield-space "
+      "(inserted space) are witnessed by C11_refuted_sign_space and reported as KNOWN-FINDING.",
+      "Rocq: finite reflection over regenerated tables + induction for plain text + reference-converter differential check",
+      "DESIGN.md section 6 C11")
